@@ -246,6 +246,11 @@ def _neg_conj(cond: X) -> list:
     if cond.k == "cmp" and cond.a[0] in ("==", "!="):
         return [X("cmp", "!=" if cond.a[0] == "==" else "==", cond.a[1], cond.a[2],
                   line=cond.line)]
+    if cond.k == "cmp" and cond.a[0] in (">=", "<=") and \
+            all(x.k in ("name", "num") for x in (cond.a[1], cond.a[2])):
+        # integer loop bookkeeping (k >= j): the complement is exact
+        return [X("cmp", "<" if cond.a[0] == ">=" else ">", cond.a[1], cond.a[2],
+                  line=cond.line)]
     return [X("not", cond)]
 
 
@@ -501,30 +506,40 @@ def symmetric_store_report(body, arrays=None):
 
 def canon_loopvars(body, letters="ijklmnop", depth=0):
     """Copy of `body` with every for-loop variable renamed by nesting depth
-    (outermost i, then j, k, ...) inside the loop it controls."""
+    (outermost i, then j, k, ...) inside the loop it controls.  Two phases (first
+    to unique placeholders, then to the letters), so that loops whose variables
+    are a permutation of the canonical letters are renamed simultaneously."""
     from .cymodel import rename_x, canonical_mapping
-    out = []
-    for st in body:
-        if st.k == "for" and st.a[0].k == "name" and depth < len(letters):
-            inner = canon_loopvars(st.a[2], letters, depth + 1)
-            m = canonical_mapping({st.a[0].a[0]: letters[depth]},
-                                  names_in(inner) | {st.a[0].a[0]})
-            rest = st.a[3:] if len(st.a) > 3 else ()
-            out.append(X("for", X("name", letters[depth], line=st.a[0].line), st.a[1],
-                         rename_x(inner, m), *rest, line=st.line))
-        elif st.k == "for":
-            rest = st.a[3:] if len(st.a) > 3 else ()
-            out.append(X("for", st.a[0], st.a[1],
-                         canon_loopvars(st.a[2], letters, depth + 1), *rest, line=st.line))
-        elif st.k == "while":
-            out.append(X("while", st.a[0], canon_loopvars(st.a[1], letters, depth),
-                         *st.a[2:], line=st.line))
-        elif st.k == "if":
-            out.append(X("if", [(c, canon_loopvars(b, letters, depth)) for c, b in st.a[0]],
-                         canon_loopvars(st.a[1], letters, depth), line=st.line))
-        else:
-            out.append(st)
-    return out
+
+    def phase1(stmts, d):
+        out = []
+        for st in stmts:
+            if st.k == "for" and st.a[0].k == "name" and d < len(letters):
+                ph = f"\x00L{d}"
+                inner = rename_x(st.a[2], {st.a[0].a[0]: ph})
+                inner = phase1(inner, d + 1)
+                rest = st.a[3:] if len(st.a) > 3 else ()
+                out.append(X("for", X("name", ph, line=st.a[0].line), st.a[1],
+                             inner, *rest, line=st.line))
+            elif st.k == "for":
+                rest = st.a[3:] if len(st.a) > 3 else ()
+                out.append(X("for", st.a[0], st.a[1], phase1(st.a[2], d + 1), *rest,
+                             line=st.line))
+            elif st.k == "while":
+                out.append(X("while", st.a[0], phase1(st.a[1], d), *st.a[2:],
+                             line=st.line))
+            elif st.k == "if":
+                out.append(X("if", [(c, phase1(b, d)) for c, b in st.a[0]],
+                             phase1(st.a[1], d), line=st.line))
+            else:
+                out.append(st)
+        return out
+    tmp = phase1(body, depth)
+    names = names_in(tmp)
+    roles = {f"\x00L{d}": letters[d] for d in range(len(letters)) if f"\x00L{d}" in names}
+    # the iterables of the loops were not renamed by phase 1 for their own
+    # variable, but mention outer variables through the placeholders already
+    return rename_x(tmp, canonical_mapping(roles, names))
 
 
 def quotient_numerators(body) -> list:
@@ -722,8 +737,42 @@ def normalise_scans(body: list) -> list:
     def falsy(v):
         return (v.k == "bool" and v.a[0] is False) or pp(v) in ("False", "0")
 
+    def for_break(stmts):
+        """for k in range(a, B): if C: break   (k read afterwards)  ->
+        k = a; while <not C> and k < B-1: k += 1"""
+        out = []
+        for st in stmts:
+            if st.k == "for" and st.a[0].k == "name" and st.a[1].k == "call" and \
+                    pp(st.a[1].a[0]) == "range" and len(st.a[1].a[1]) == 2 and \
+                    st.a[2] and all(
+                        b_.k == "if" and len(b_.a[0]) == 1 and not b_.a[1] and
+                        len(b_.a[0][0][1]) == 1 and b_.a[0][0][1][0].k == "break"
+                        for b_ in st.a[2]) and \
+                    not (len(st.a) > 3 and st.a[3]):
+                k_ = st.a[0]
+                lo, hi = st.a[1].a[1]
+                if hi.k == "bin" and hi.a[0] == "+" and pp(hi.a[2]) == "1":
+                    last = hi.a[1]
+                elif hi.k == "bin" and hi.a[0] == "+" and pp(hi.a[1]) == "1":
+                    last = hi.a[2]
+                else:
+                    last = X("bin", "-", hi, X("num", 1), line=hi.line)
+                # several `if Ci: break` in a row: leave at the first Ci that
+                # holds, i.e. stay while none of them does (same evaluation order)
+                keep = []
+                for b_ in st.a[2]:
+                    keep.extend(_neg_conj(b_.a[0][0][0]))
+                bound = X("cmp", "<", k_, last, line=st.line)
+                keep = [c for c in keep if pp(c) != pp(bound)] + [bound]
+                out.append(X("assign", [k_], lo, line=st.line))
+                out.append(X("while", _and(keep, st.line),
+                             [X("aug", "+", k_, X("num", 1), line=st.line)], line=st.line))
+            else:
+                out.append(st)
+        return out
+
     def block(stmts):
-        stmts = [one(st) for st in stmts]
+        stmts = for_break([one(st) for st in stmts])
         # flag scans
         out = []
         i = 0
